@@ -145,6 +145,13 @@ type MapV struct {
 	Elem types.Type
 }
 
+// SnapV is a pointer argument of an opaque call together with the contents of
+// the array it pointed to at the time of the call.
+type SnapV struct {
+	Ptr   *Ptr
+	Elems *StructV
+}
+
 // FuncV is a function value with optional closure bindings.
 type FuncV struct {
 	Fn       interface{} // *ssa.Function or *ssa.Builtin
@@ -631,6 +638,9 @@ func bvMux(c Bit, t, f *BV) *BV {
 		return f
 	}
 	if t.W > 1 && (isArith(t) || isArith(f)) && !c.top {
+		if c.c { // canonical orientation: positive condition
+			c, t, f = bnot(c), f, t
+		}
 		ct := boolBV(c).Term()
 		return termBV(mkTerm("ite", t.W, ct, t.Term(), f.Term()), t.W, t.Signed)
 	}
